@@ -24,6 +24,7 @@ type pCmdSpec struct {
 	Batch   *[]*pCmdSpec `json:"batch,omitempty"`
 	Seq     *[]*pCmdSpec `json:"seq,omitempty"`
 	TickUs  *int         `json:"tick_us,omitempty"`
+	Reuse   bool         `json:"reuse,omitempty"` // batch: build the argument list in a scratch buffer shared by all such batches
 	Msg     *pMsgSpec    `json:"msg,omitempty"`
 }
 
